@@ -511,6 +511,35 @@ Proof.
   destruct (api_dst_not_done _ _ _ Hok Hl) as [_ H]. contradiction H. reflexivity.
 Qed.
 
+(* a locked section acts on the state it finds when it has the mutex: its leave hooks are those of
+   that state, and a teardown without force commits from STANDBY / DEPLOYED only *)
+Lemma act_section_leave a st s :
+  In (Hook (MLeave s)) (sec_trace (act_section tbl bf o a st)) -> s = st.
+Proof.
+  destruct a; cbn [act_section]; try (cbn; tauto).
+  - unfold fsm_section, fsm_core, sec_trace.
+    destruct (lookup_dst tbl ev st) as [dst|]; [|cbn; tauto].
+    destruct (f_before (outcome_for tbl o st ev)); [cbn; intros [H|[]]; discriminate|].
+    destruct (estate_eqb st dst); [cbn; intros [H|[H|[]]]; discriminate|].
+    destruct (f_leave (outcome_for tbl o st ev)); [cbn; intros [H|[H|[]]]; congruence|].
+    destruct (f_body (outcome_for tbl o st ev) && bf ev); cbn [sec_pre sec_commit sec_post]; destruct (bf ev); cbn;
+      intro H; repeat (destruct H as [H|H]; [congruence|]); destruct H.
+  - unfold teardown_section, sec_trace.
+    destruct (estate_eqb st sDONE); [cbn; tauto|].
+    destruct (negb (mem_state st [sSTANDBY; sDEPLOYED]) && negb force); [cbn; tauto|].
+    destruct (o_relfail1 o); [cbn; intros [H|[]]; congruence|].
+    destruct (o_relfail2 o); cbn; intro H; repeat (destruct H as [H|H]; [congruence|]); destruct H.
+  - destruct (estate_eqb st sDONE || estate_eqb st s0); cbn; intro H; repeat (destruct H as [H|H]; [discriminate|]); destruct H.
+Qed.
+
+Lemma teardown_unforced_commit st d u :
+  sec_commit (act_section tbl bf o (ATeardown false) st) = Some (d, u) -> st = sSTANDBY \/ st = sDEPLOYED.
+Proof.
+  cbn [act_section]. unfold teardown_section.
+  destruct (estate_eqb st sDONE); [cbn; discriminate|].
+  destruct st; cbn; try discriminate; tauto.
+Qed.
+
 Definition locked (a : act) : bool := match a with ATry _ | ATeardown _ | AForce _ => true | _ => false end.
 
 Lemma exec_locked a w :
@@ -864,3 +893,8 @@ Proof. intro H. eapply Forall_impl; [|exact H]. intros a Ha. apply api_req_ok. e
 
 Lemma J_listed st : J (mkWorld st true) -> st <> sDONE.
 Proof. intros H E. specialize (H E). discriminate. Qed.
+
+(* every read of the FSM state in TryTransition, ForceError and TeardownEnvironment lies after the
+   transition mutex is taken (counted by the translator in the source of this run) *)
+Lemma state_read_under_mutex : env_prelock_state_reads = 0.
+Proof. vm_compute. reflexivity. Qed.
